@@ -153,6 +153,60 @@ def netcdf_round_trip(ctx):
         elif not numpy.allclose(numpy.ma.getdata(got)[~wm], numpy.ma.getdata(want)[~wm], rtol=1e-12, atol=0):
             ctx.fail("%s of a NetCDF variable: values changed between computing, writing and reading back" % cmd, desc)
 
+def printed_fields(ctx):
+    """PrintVars (to the screen and to a file) over fields of 6 ... 5000 cells with missing cells, whole numbers and decimals: what is printed does not depend on
+    the numbers stored beneath the missing cells (the same field with other hidden numbers - large, negative, infinite, NaN - prints the same text), and a field
+    with a missing cell can be printed at all"""
+    import contextlib
+    import io
+    import os
+    import numpy
+    from mpilot.libraries.eems.basic import PrintVars
+    tmp = common.tmpdir("mpv_c03p_")
+    rs = numpy.random.RandomState(ctx.seed + 17)
+    for n in (6, 40, 1001, 1500, 5000):
+        for dt in (float, int):
+            for shape in ((n,), (2, n // 2)) if n % 2 == 0 else ((n,),):
+                vals = rs.randint(-3, 4, size=n).astype(dt) / (4 if dt is float else 1)
+                vals = vals.astype(dt).reshape(shape)
+                mask = numpy.zeros(n, dtype=bool)
+                mask[[0, n // 2, n - 1]] = True
+                mask = mask.reshape(shape)
+                texts = []
+                for payload in ((7, -9999), (123456789, 0)) + (((numpy.inf, numpy.nan),) if dt is float else ()):
+                    d = vals.copy()
+                    d[mask] = payload[0]
+                    d.ravel()[0] = payload[1]
+                    a = numpy.ma.array(d, mask=mask.copy())
+                    prod = [eems.Producer(a, "field", False)]
+                    for where in ("file", "screen"):
+                        out = io.StringIO()
+                        try:
+                            with contextlib.redirect_stdout(out):
+                                if where == "file":
+                                    path = os.path.join(tmp, "vars.txt")
+                                    PrintVars("P", []).execute(InFieldNames=prod, OutFileName=path)
+                                    text = open(path).read()
+                                else:
+                                    PrintVars("P", []).execute(InFieldNames=prod)
+                                    text = out.getvalue()
+                        except Exception as e:      # noqa
+                            text = "raised %s" % type(e).__name__
+                        texts.append((where, payload, text))
+                ctx.case("print %d %s %r" % (n, dt.__name__, shape), sample=None)
+                ctx.count("c03_printed_fields")
+                for where in ("file", "screen"):
+                    got = [(p_, t) for w, p_, t in texts if w == where]
+                    if any(t.startswith("raised ") for _, t in got):
+                        ctx.fail("PrintVars (%s) of a %s field of %d cells with missing cells %s" % (where, dt.__name__, n, [t for _, t in got if t.startswith("raised ")][0]),
+                                 {"cells": n, "shape": list(shape), "element_type": dt.__name__, "missing_cells": [0, n // 2, n - 1]})
+                    elif len({t for _, t in got}) != 1:
+                        a_ = got[0]
+                        b_ = [g for g in got if g[1] != a_[1]][0]
+                        ctx.fail("PrintVars (%s) of a %s field of %d cells prints another text when other numbers lie beneath its missing cells (hidden %r: %r ...; hidden %r: %r ...)" % (
+                            where, dt.__name__, n, a_[0], a_[1][:80], b_[0], b_[1][:80]), {"cells": n, "shape": list(shape), "element_type": dt.__name__, "missing_cells": [0, n // 2, n - 1]})
+
+
 def writers_between(ctx):
     """histories: an output command (NetCDF / CSV EEMSWrite, PrintVars to the screen or to a file) runs BETWEEN two evaluations of the same data command over the
     same fields.  Writing is no data command: which cells of a result are missing is decided by the inputs alone, so the command evaluated after the write is
@@ -330,6 +384,7 @@ def run(ctx):
     readers(ctx)
     netcdf_round_trip(ctx)
     writers_between(ctx)
+    printed_fields(ctx)
     return ctx.finish(
         rule="cases = (data command, parameters, inputs with masks none/one/some/most and adversarial hidden payloads ±1e20, "
              "category keys, control points); each masked case is re-run with different payloads; distinct by protocol line; "
